@@ -135,6 +135,8 @@ std::string get(const char* k, const char* def)
   return it == kv.end() ? std::string(def) : it->second;
 }
 
+bool server_mode = false;
+
 /* state observed by the oracle; plain memory: threads are serialised by detsched */
 struct Obs {
   int napplies       = 0;
@@ -151,7 +153,9 @@ struct Obs {
   long elems            = 0;
   std::string violation; /* first one */
   std::string verdict = "ok";
-} obs;
+  bool done           = false; /* RESULT already printed: what follows is clean-up */
+};
+Obs obs;
 
 void print_result(const char* verdict)
 {
@@ -173,10 +177,18 @@ void print_result(const char* verdict)
 void abort_hook(int code)
 {
   /* called by detsched on deadlock (42) / step cap (43), before _exit */
+  if (obs.done) { /* while cleaning up a leaked pool after the verdict: not a finding of this plan */
+    printf("END rc=0 sig=0 cleanup-failed\n");
+    fflush(stdout);
+    _exit(0);
+  }
   if (not obs.violation.empty()) /* an earlier count/early violation has priority: it explains the hang */
     print_result(obs.verdict.c_str());
   else
     print_result(code == 42 ? "deadlock" : "stepcap");
+  if (server_mode)
+    printf("END rc=%d sig=0\n", code);
+  fflush(stdout);
 }
 
 void violation(const char* cls, const std::string& msg)
@@ -201,8 +213,21 @@ std::string fmt(const char* f, ...)
 }
 } // namespace
 
-/* one plan; never returns */
-[[noreturn]] static void run_plan(const std::vector<std::string>& toks);
+/* one plan; returns the exit code (0: verdict ok and the process is clean again; 1: violation; 2: usage);
+ * never returns on deadlock (42) / step cap (43) */
+static int run_plan(const std::vector<std::string>& toks);
+
+/* trigger every lazy initialisation (log categories, once flags, glibc thread stacks...) with the scheduler
+ * dormant, so that the first scheduled plan of a process sees the same operations as the n-th */
+static void warm_up()
+{
+  for (auto mode : {XBT_PARMAP_POSIX, XBT_PARMAP_FUTEX, XBT_PARMAP_BUSY_WAIT}) {
+    simgrid::xbt::Parmap<int> pm(3, mode);
+    std::vector<int> data{1, 2, 3, 4};
+    std::atomic<int> sum{0};
+    pm.apply([&sum](int i) { sum += i; }, data);
+  }
+}
 
 static void make_engine(char* argv0)
 {
@@ -222,31 +247,27 @@ static std::vector<std::string> split(char* line)
 int main(int argc, char** argv)
 {
   if (argc == 2 && strcmp(argv[1], "server") == 0) {
-    /* fork server: the engine is created once (process start-up and dynamic linking of libsimgrid dominate the
-     * cost of a run); every plan line read on stdin runs in a forked child, i.e. in a fresh copy of the pristine
-     * post-initialisation process image; the child's stdout+stderr go to our stdout, followed by an END line */
+    /* plan server: one plan per stdin line, all in this process (process creation - exec and fork alike - is
+     * what limits throughput, and it does not scale with the number of concurrent harnesses on this platform).
+     * A plan that ends cleanly (verdict ok) leaves no thread behind (a leaked pool is destroyed after the RESULT
+     * line), so the next plan starts from the same state as in a fresh process: the warm-up below has already
+     * triggered every lazy initialisation, in server and stand-alone mode alike. After any other verdict the
+     * server prints END and exits; the caller starts a new one. stdout+stderr of a plan end with an END line. */
     prctl(PR_SET_PDEATHSIG, SIGKILL);
     dup2(1, 2);
     setvbuf(stdout, nullptr, _IOLBF, 0);
     make_engine(argv[0]);
+    warm_up();
+    server_mode = true;
     char line[8192];
     while (fgets(line, sizeof line, stdin)) {
+      alarm(60); /* wall-clock kill budget: the caller sees the server die of SIGALRM: infrastructure */
+      int rc = run_plan(split(line));
+      alarm(0);
+      printf("END rc=%d sig=0\n", rc);
       fflush(stdout);
-      pid_t pid = fork();
-      if (pid < 0) {
-        printf("END rc=-1 sig=0 forkfailed\n");
-        continue;
-      }
-      if (pid == 0) {
-        prctl(PR_SET_PDEATHSIG, SIGKILL);
-        alarm(60); /* wall-clock kill budget: reported as sig=14, infrastructure for the caller */
-        run_plan(split(line));
-      }
-      int st = 0;
-      while (waitpid(pid, &st, 0) < 0 && errno == EINTR) {
-      }
-      printf("END rc=%d sig=%d\n", WIFEXITED(st) ? WEXITSTATUS(st) : -1, WIFSIGNALED(st) ? WTERMSIG(st) : 0);
-      fflush(stdout);
+      if (rc != 0)
+        _exit(rc);
     }
     _exit(0);
   }
@@ -261,16 +282,21 @@ int main(int argc, char** argv)
         toks.push_back(t);
   }
   make_engine(argv[0]);
-  run_plan(toks);
+  warm_up();
+  int rc = run_plan(toks);
+  fflush(stdout);
+  _exit(rc);
 }
 
-static void run_plan(const std::vector<std::string>& toks)
+static int run_plan(const std::vector<std::string>& toks)
 {
+  kv.clear();
+  obs = Obs();
   for (auto const& t : toks) {
     size_t e = t.find('=');
     if (e == std::string::npos) {
       fprintf(stderr, "parmapsim: bad argument '%s'\n", t.c_str());
-      _exit(2);
+      return 2;
     }
     kv[t.substr(0, e)] = t.substr(e + 1);
   }
@@ -285,12 +311,12 @@ static void run_plan(const std::vector<std::string>& toks)
     mode = XBT_PARMAP_BUSY_WAIT;
   else {
     fprintf(stderr, "parmapsim: bad mode\n");
-    _exit(2);
+    return 2;
   }
   int workers = atoi(get("workers", "2").c_str());
   if (workers < 1 || workers > 16) {
     fprintf(stderr, "parmapsim: workers out of 1..16\n");
-    _exit(2);
+    return 2;
   }
   std::vector<int> applies;
   {
@@ -304,7 +330,7 @@ static void run_plan(const std::vector<std::string>& toks)
         int l = atoi(a.substr(i, j - i).c_str());
         if (l < 0 || l > 500) {
           fprintf(stderr, "parmapsim: length out of 0..500\n");
-          _exit(2);
+          return 2;
         }
         applies.push_back(l);
       }
@@ -334,7 +360,7 @@ static void run_plan(const std::vector<std::string>& toks)
   detsched_set_abort_hook(abort_hook);
   if (detsched_enable_spec(seed, spec.c_str()) != 0) {
     fprintf(stderr, "parmapsim: bad scheduler spec '%s'\n", spec.c_str());
-    _exit(2);
+    return 2;
   }
 
   obs.phase = "create";
@@ -426,5 +452,14 @@ static void run_plan(const std::vector<std::string>& toks)
   obs.phase = "end";
   print_result(obs.verdict.c_str());
   fflush(stdout);
-  _exit(obs.violation.empty() ? 0 : 1);
+  if (not obs.violation.empty())
+    return 1;
+  /* clean up so that the process can take another plan: not part of the verdict */
+  obs.done = true;
+  if (pm) {
+    delete pm; /* leaked pool (destroy=0): its workers are parked in simulated waits; let them go */
+    pm = nullptr;
+  }
+  detsched_disable();
+  return 0;
 }
